@@ -134,7 +134,7 @@ JOBS = [
                "myth_internal_barrier_init/barrier_init_contract", "myth_malloc/malloc_contract",
                "myth_worker_key_init/worker_key_init_contract", "real_pthread_create/pthread_create_contract",
                "real_pthread_self/pthread_self_contract", "myth_worker_thread_fn/worker_thread_fn_contract"],
-      defines=["-DPOOL_MALLOC=1", "-DNW_MAX=1048576"], fuc=["myth_init_ex_body_really"], timeout=200),
+      fuc=["myth_init_ex_body_really"], timeout=200),
   Job("c15.fini.body", TU3, "h_fini", loops=L_FINI, loop_counts={"myth_init_once_ctl_wait": 1, "myth_fini_body": 2},
       replace=ENV3 + ["myth_startpoint_exit_ex_body/exit_ex_contract", "real_pthread_join/pthread_join_contract",
                       "myth_fini_body_really/fini_really_contract"],
@@ -142,8 +142,8 @@ JOBS = [
   Job("c15.fini.exit.bounded", TU3, "h_exit_ex", kind="bounded",
       replace=["verif_ctx_save/ctx_save_contract", "verif_suspend_resume/suspend_resume_contract", "myth_queue_trypass/trypass_contract",
                "myth_random/random_contract", "myth_cleanup_worker/cleanup_worker_contract"],
-      cbmc=["--unwind", "4", "--unwindset", "myth_notify_workers_exit.0:65", "--unwindset", "setup_migration.0:65", "--unwinding-assertions"],
-      defines=["-DMAX_REFUSALS=2", "-DNW_MAX=64"],
+      cbmc=["--unwind", "4", "--unwindset", "myth_notify_workers_exit.0:4", "--unwindset", "setup_migration.0:4", "--unwinding-assertions"],
+      defines=["-DMAX_REFUSALS=2", "-DNW_MAX=3"],
       fuc=["myth_startpoint_exit_ex_body", "myth_startpoint_exit_ex_1", "myth_notify_workers_exit", "myth_env_get_randomly",
            "myth_get_current_env"], timeout=200,
       note="bounded: at most 2 refused hand-overs of the main thread (so at most 3 migration hops), at most 64 workers (static descriptor pool); "
